@@ -9,6 +9,7 @@ import (
 	"context"
 	"errors"
 	"fmt"
+	"io"
 	"log/slog"
 	"net"
 	"net/http"
@@ -24,7 +25,7 @@ import (
 	"github.com/tigerwill90/fox"
 )
 
-const rule = "cases = (panic value in 13 kinds incl. wrapped http.ErrAbortHandler and net.OpError variants) x (response progress: nothing, informational header, final header, partial body, flushed) x (handler kind: route, inner route middleware, route reached by ignoring a trailing slash, no-route, no-method, options) " +
+const rule = "cases = (panic value in 13 kinds incl. wrapped http.ErrAbortHandler and net.OpError variants) x (response progress: nothing, informational header, final header, partial body, flushed, one chunk streamed through ReadFrom / io.Copy from a source that then panics) x (handler kind: route, inner route middleware, route reached by ignoring a trailing slash, no-route, no-method, options) " +
 	"x (credential header names in canonical, lower-case, upper-case and mixed capitalisation set directly in the header map, plus ordinary headers); the product is enumerated completely; " +
 	"plus a panic after every step of Updates and View functions, and panics raised by middleware constructors during 8 write entry points; distinct by the tuple; non-trivial always"
 
@@ -104,7 +105,7 @@ var values = []pv{
 	{"net.OpError without syscall error", func() any { return &net.OpError{Op: "read", Net: "tcp", Err: errors.New("broken pipe")} }, false, false},
 }
 
-var progress = []string{"nothing", "informational", "header", "partial-body", "flushed"}
+var progress = []string{"nothing", "informational", "header", "partial-body", "flushed", "streamed-readfrom", "streamed-iocopy"}
 var kinds = []string{"route", "route-middleware", "route-ignored-slash", "noroute", "nomethod", "options"}
 
 var sensitive = []string{"Authorization", "Proxy-Authorization", "Cookie", "Set-Cookie", "X-CSRF-Token", "X-Vault-Token"}
@@ -141,6 +142,11 @@ func doPanic(c fox.Context) {
 		_, _ = c.Writer().Write([]byte("partial"))
 	case "flushed":
 		_ = c.Writer().FlushError() // commits the implicit 200 header
+	case "streamed-readfrom":
+		// the handler streams a source that delivers one chunk and then panics inside Read
+		_, _ = c.Writer().ReadFrom(&panickingSource{plan: p})
+	case "streamed-iocopy":
+		_, _ = io.Copy(c.Writer(), &panickingSource{plan: p})
 	}
 	if p.value.make == nil {
 		var m map[string]int
@@ -148,6 +154,25 @@ func doPanic(c fox.Context) {
 	}
 	p.raised = p.value.make()
 	panic(p.raised)
+}
+
+// panickingSource delivers "partial" on the first Read and raises the plan's panic value on the second.
+type panickingSource struct {
+	plan *plan
+	done bool
+}
+
+func (s *panickingSource) Read(b []byte) (int, error) {
+	if !s.done {
+		s.done = true
+		return copy(b, "partial"), nil
+	}
+	if s.plan.value.make == nil {
+		var m map[string]int
+		m["x"] = 1
+	}
+	s.plan.raised = s.plan.value.make()
+	panic(s.plan.raised)
 }
 
 func build(cap *capture) *fox.Router {
@@ -245,13 +270,13 @@ func one(run *kit.Run, f *fox.Router, cap *capture, v pv, pr, kind, hname, secre
 		fail("escaped", "a panic escaped ServeHTTP: %v", escaped)
 	}
 	// client-visible result
-	sent := map[string]string{"nothing": "", "informational": "header 103", "header": "header 202", "partial-body": `header 202; body "partial"`, "flushed": "header 200; flush"}[pr]
+	sent := map[string]string{"nothing": "", "informational": "header 103", "header": "header 202", "partial-body": `header 202; body "partial"`, "flushed": "header 200; flush", "streamed-readfrom": `header 200; body "partial"`, "streamed-iocopy": `header 200; body "partial"`}[pr]
 	switch {
 	case v.abort:
 		if log != sent {
 			fail("response", "after re-raising the abort the response must be left as the handler left it (%q), the underlying writer saw %q", sent, log)
 		}
-	case pr == "header" || pr == "partial-body" || pr == "flushed":
+	case pr == "header" || pr == "partial-body" || pr == "flushed" || pr == "streamed-readfrom" || pr == "streamed-iocopy":
 		if log != sent {
 			fail("response", "the response had been started (%q) and must be left untouched, the underlying writer saw %q", sent, log)
 		}
@@ -421,10 +446,15 @@ func writePanics(run *kit.Run) {
 func txnPanics(run *kit.Run) {
 	f, _ := fox.New()
 	h := func(fox.Context) {}
-	for _, p := range []string{"/a", "/a/{b}", "/c/*{d}", "h.com/x"} {
+	for _, p := range []string{"/a", "/a/{b}", "/c/*{d}", "h.com/x", "/foo/bar", "/foo/baz/{id}", "/s/b", "/s/c", "/s/d"} {
 		f.MustHandle("GET", p, h)
 	}
 	steps := []func(t *fox.Txn){
+		// a pattern that is exactly an existing branching node, then writes below it and next to existing siblings
+		func(t *fox.Txn) { _, _ = t.Handle("GET", "/foo/ba", h) },
+		func(t *fox.Txn) { _, _ = t.Update("GET", "/foo/bar", h) },
+		func(t *fox.Txn) { _, _ = t.Handle("GET", "/foo/baz/{id}/x", h) },
+		func(t *fox.Txn) { _, _ = t.Handle("GET", "/s/a", h) },
 		func(t *fox.Txn) { _, _ = t.Handle("GET", "/new/{x}", h) },
 		func(t *fox.Txn) { _, _ = t.Update("GET", "/a", h) },
 		func(t *fox.Txn) { _, _ = t.Delete("GET", "/c/*{d}") },
